@@ -92,6 +92,9 @@ def _gen_case(rng, tier):
         # of a legal size line): the limit bounds the payload, not the framing
         plen = sum(len(ch['data']) // 2 for ch in case['chunks'])
         case['M'] = plen + rng.choice([0, 0, 1, 2, 7, 40])
+    if rng.random() < 0.08:
+        # another application of the same process answers request errors in its own (non-4xx) way
+        case['foreign_app'] = True
     return case
 
 
@@ -180,7 +183,8 @@ def _run_case(case):
                 outcome, detail = 'server-error', f'{type(e).__name__}: {e}'
     else:
         o = body_request(wire, case['sched'], B=B, M=case.get('M'), chunked=True, cl=case.get('cl_too'), ctype=case.get('ctype'),
-                         tempmode=case['temp'], touch=('body',), retry=(3 if case.get('retry') else 0), errors_map=case.get('errors_map'))
+                         tempmode=case['temp'], touch=('body',), retry=(3 if case.get('retry') else 0), errors_map=case.get('errors_map'),
+                         foreign_app=bool(case.get('foreign_app')))
         stream = o.stream
         log('status', o.resp.status)
         if 'retry_body' in o.seen:
